@@ -236,6 +236,70 @@ def template_text(t, n):
     return t["ctx"] % (t["pre"] * n + t["core"] + t["suf"] * n)
 
 
+# ------------------------------------------------------------------ string sections
+def string_runs():
+    """hex and regex strings whose alternation branches are runs of classes / masks / negations of growing length
+    (the literal extractor multiplies the sizes of the classes of a run), and runs outside alternations"""
+    out = []
+    R = 'rule a { strings: $a = %s condition: $a }'
+    rx_cls = ["\\S", "\\w", "[a-z]", ".", "[^a]", "\\d", "[\\x00-\\xfe]", "\\W"]
+    for k in range(1, 13):
+        for c in rx_cls:
+            run = c * k
+            out.append(("rx_alt_first:" + c, R % ("/ab(%s|cd)ef/" % run)))
+            out.append(("rx_alt_last:" + c, R % ("/ab(cd|%s)ef/" % run)))
+        out.append(("rx_alt_both", R % ("/(%s|%s)xyz/" % ("\\S" * k, "\\w" * k))))
+        out.append(("rx_alt_nested", R % ("/ab((%s|c)|d)ef/" % ("\\S" * k))))
+        out.append(("rx_run", R % ("/abcd%sefgh/" % ("\\S" * k))))
+        out.append(("rx_alt_wide", R % ("/ab(%s|cd)ef/ wide ascii nocase" % ("\\S" * k))))
+        masks = " ".join("?%X" % (i % 16) for i in range(1, k + 1))
+        masks2 = " ".join("%X?" % (i % 16) for i in range(1, k + 1))
+        negs = " ".join("~%02X" % i for i in range(1, k + 1))
+        unk = " ".join(["??"] * k)
+        for nm, run in (("mask_lo", masks), ("mask_hi", masks2), ("neg", negs), ("unknown", unk),
+                        ("mixed", " ".join([masks, negs][i % 2].split()[i // 2] for i in range(k)) if k > 1 else masks)):
+            out.append(("hex_alt_first:" + nm, R % ("{ AB ( %s | CD ) EF 01 }" % run)))
+            out.append(("hex_alt_last:" + nm, R % ("{ AB ( CD | %s ) EF 01 }" % run)))
+            out.append(("hex_alt_only:" + nm, R % ("{ ( %s | CD ) }" % run)))
+            out.append(("hex_run:" + nm, R % ("{ AB CD %s EF 01 }" % run)))
+        out.append(("hex_alt_nested", R % ("{ AB ( ( %s | 01 ) | CD ) EF }" % masks)))
+    return out
+
+
+def time_families():
+    """compile time must stay modest: repeated groups with empty branches, nested optional groups, ..."""
+    R = 'rule a { strings: $a = /%s/ condition: $a }'
+    out = []
+    for n in (8, 16, 24, 60, 200):
+        out.append(("empty_branch2", R % ("(a|)" * n + "x")))
+        out.append(("empty_branch3", R % ("(a|b|)" * n + "x")))
+        out.append(("empty_first", R % ("(|a)" * n + "x")))
+        out.append(("opt_group", R % ("(ab)?" * n + "xyz")))
+        out.append(("opt_alt", R % ("(a|)?" * n + "x")))
+        out.append(("alt2", R % ("(a|b)" * n + "x")))
+        out.append(("cls_alt", R % ("([ab]|)" * n + "x")))
+        m = min(n, 28)
+        out.append(("nested_empty", R % ("(" * m + "a" + "|)" * m + "x")))
+        out.append(("nested_opt", R % ("(" * m + "a" + ")?" * m + "x")))
+        out.append(("hex_alts", 'rule a { strings: $a = { %s DD } condition: $a }' % ("( AA | BB CC | ?? ) " * min(n, 60))))
+        out.append(("matches_empty_branch", 'rule a { condition: "x" matches /%sx/ }' % ("(a|)" * n)))
+    return out
+
+
+# texts whose every prefix is handed to the parser (with and without trailing blanks / comment)
+TRUNCATION_TEXTS = [
+    'import "math"\nglobal private rule r0 : t1 t2 {\n  meta:\n    a = "x"\n    b = 3\n    c = true\n  strings:\n'
+    '    $a = "abc" wide ascii nocase fullword\n    $b = { AB ( ?1 | CD [1-2] ~EF ) 01 }\n'
+    '    $c = /a(b|c)+[^x]\\d{1,2}/is\n    $d = "q" xor(1-3) private\n    $e = "z" base64 base64wide\n'
+    '  condition:\n    #a in (0..10) > 1 and 1 of them in (10 .. filesize) and $a at 3 and @b[1] < !c[2]\n}\n',
+    'rule r1 {\n  strings:\n    $a = "a"\n  condition:\n    for any i in (1..#a) : ( @a[i] == uint8(i + 1) ) or\n'
+    '    for all of ($a*) : ( $ in (0..100) ) or any of them in (0 .. 5) or\n'
+    '    for 2 i in (1, 2, 3) : ( i \\ 2 == -1 ) or not defined math.abs(~1 | 2) or "a" contains "b" or\n'
+    '    "x" matches /y/ or 50% of them or none of ($a) or r0 and pe.sections[0].name == "t"\n}\n',
+    'include "x.yar"\nrule r2 { condition: #a in (0',
+]
+
+
 NEST_KINDS = ["paren", "not", "neg", "bitnot", "defined", "for", "uint", "intparen", "subscript", "regex_group",
               "regex_alt", "regex_cond", "hex_alt", "hex_alt2"]
 EXPR_KINDS = {"paren", "not", "neg", "bitnot", "defined", "for", "uint", "intparen", "subscript"}
@@ -423,6 +487,25 @@ class C08(Prop):
         for k in (12, 20, 24):
             out.append(self.mk("time:for_iter", "rule a { condition: %s1%s }" % ("for any i in ((" * k, ")..2) : (true)" * k), {}))
             out.append(self.mk("time:for_iter_list", "rule a { condition: %s1%s }" % ("for any i in ((" * k, "), 2) : (true)" * k), {}))
+        # string sections: runs of classes / masks / negations in and around alternation branches
+        for nm, t in string_runs():
+            out.append(self.mk("strrun:" + nm, t, {}))
+        # compile time families (wall-clock cap; the time measured in the child must stay below 15 s)
+        for nm, t in time_families():
+            out.append(self.mk("time:" + nm, t, {}))
+        # systematic truncation: every byte prefix of the reference texts, and every token boundary with trailing
+        # blanks / comments
+        for ti, t in enumerate(TRUNCATION_TEXTS):
+            b = t.encode()
+            for cut in range(len(b) + 1):
+                out.append(self.mk("trunc:%d" % ti, b[:cut], {}))
+            if ti < 2:
+                out[-1]["parse_expect"] = "ok"      # the whole reference text parses
+            pos = [m.end() for m in re.finditer(r"\w+|\S", t)]
+            for cut in pos:
+                pre = t[:cut].encode()
+                for tail in (b" ", b"\n\t ", b" // c", b" /* c */ ", b" /* open"):
+                    out.append(self.mk("trunc_ws:%d" % ti, pre + tail, {}))
         for kind in FLAT_KINDS:
             for m in (10, 300, 3000):
                 # chains of binary operators build a left-deep tree: beyond max_condition_depth they are an error
@@ -435,13 +518,18 @@ class C08(Prop):
         out.append(self.mk("regex_size", 'rule a { condition: "x" matches /(\\w{1000}){1000}/ }', {}))
         base = len(out)
         i = 0
-        while len(out) - base < n:
+        extra = 0
+        while len(out) - base - extra < n:
             r = rng.fork("t%d" % i)
             i += 1
             txt = Gen(r).file()
             k = r.below(10)
             if k < 4:
                 out.append(self.mk("valid", txt, self.params(r, plain=True), "ok"))
+                if i % 25 == 0:
+                    for m_ in re.finditer(r"\w+|\S", txt):
+                        out.append(self.mk("trunc_gen", txt[:m_.end()] + r.choice(["", " ", " // c"]), {}))
+                        extra += 1
             elif k < 5:
                 out.append(self.mk("valid+params", txt, self.params(r)))
             elif k < 8:
